@@ -306,9 +306,37 @@ func c06R6(c *Ctx) {
 	if udpOverflow == nil || fTrunc == nil || maxSize == nil {
 		return
 	}
+	// the limit is w.size itself, or a value that is w.size on every edge a udp
+	// reply can take: a phi whose other operands (the stream transports' protocol
+	// maximum) flow in only across Proto() != "udp" (F-C11-2: the same test now
+	// bounds stream replies by dns.MaxMsgSize)
+	limitIsSizeOnUDP := func(lim *Expr) bool {
+		lim = strip(lim)
+		if lim == nil {
+			return false
+		}
+		if FieldIs(a.size)(lim) {
+			return true
+		}
+		phi, ok := lim.V.(*ssa.Phi)
+		if !ok || lim.K != EPhi {
+			return false
+		}
+		hasSize := false
+		for i, ev := range phi.Edges {
+			if FieldIs(a.size)(Desc(ev)) {
+				hasSize = true
+				continue
+			}
+			if i >= len(phi.Block().Preds) || !c.edgeGuarded(phi.Block().Preds[i], phi.Block(), []Barrier{x5ProtoIsUDP(false)}, TopLevel(phi.Parent())) {
+				return false
+			}
+		}
+		return hasSize
+	}
 	overflowOnSize := func(e *Expr) bool {
 		e = strip(e)
-		return CallTo(udpOverflow)(e) && len(e.Args) == 2 && FieldIs(a.size)(e.Args[1])
+		return CallTo(udpOverflow)(e) && len(e.Args) == 2 && limitIsSizeOnUDP(e.Args[1])
 	}
 	delegate := func(in ssa.Instruction) bool {
 		cc := callCommon(in)
